@@ -184,10 +184,22 @@ def r3_shape(ck, cx):
         ck.ob('R3', fn.qn, '%s(data, check) returns %s(data) == check' % (chk, comp), ok, detail='comparison-shape', loc=cx.floc(fn),
               message='%s is not an equality between the computed and the received check value' % chk)
     cc = cx.idx.func('pymodbus.utilities.computeCRC')
-    inits = [n for n in ast.walk(cc.node) if isinstance(n, ast.Assign) and isinstance(n.targets[0], ast.Name) and n.targets[0].id == 'crc'
-             and isinstance(n.value, ast.Constant)]
-    ck.ob('R3', cc.qn, 'CRC register starts at 0xFFFF', bool(inits) and inits[0].value.value == 0xFFFF,
-          detail='crc-init %s' % (inits[0].value.value if inits else None), loc=cx.floc(cc))
+    # the CRC register is the loop-carried local of the byte loop (assigned in the loop from its own previous value); its value on
+    # loop entry, constant-folded, is the preset
+    carried = set()
+    for lp in [n for n in ast.walk(cc.node) if isinstance(n, (ast.For, ast.While))]:
+        for n in ast.walk(lp):
+            if isinstance(n, ast.Assign) and len(n.targets) == 1 and isinstance(n.targets[0], ast.Name) \
+                    and any(isinstance(x, ast.Name) and x.id == n.targets[0].id for x in ast.walk(n.value)):
+                carried.add(n.targets[0].id)
+            elif isinstance(n, ast.AugAssign) and isinstance(n.target, ast.Name):
+                carried.add(n.target.id)
+    presets = []
+    for st_ in cc.node.body:
+        if isinstance(st_, ast.Assign) and len(st_.targets) == 1 and isinstance(st_.targets[0], ast.Name) and st_.targets[0].id in carried:
+            presets.append(cx.ce.try_ev(st_.value, cc.mod, None, default=None))
+    ck.ob('R3', cc.qn, 'CRC register starts at 0xFFFF', presets == [0xFFFF],
+          detail='crc-init %s' % (presets[0] if len(presets) == 1 else presets or None), loc=cx.floc(cc))
     gen = cx.idx.func('pymodbus.utilities.__generate_crc16_table')
     polys = [n.right.value for n in ast.walk(gen.node) if isinstance(n, ast.BinOp) and isinstance(n.op, ast.BitXor)
              and isinstance(n.right, ast.Constant)]
